@@ -350,6 +350,15 @@ def position_units(tier, rng):
                           "\n".join(decls + items) + "\n    match i { " + " ".join(arms_i) + " _ => unreachable!() }",
                           "\n".join(decls) + "\n    match i { " + " ".join(arms_o) + " _ => unreachable!() }",
                           extra=[(token(tkey, a), token(tkey, b)) for a, b in prs]))
+    # the documented `try_equal!` form of a comparator closure: the macro call is the tail of a function that returns
+    # `Ordering`, and `try_equal!` returns the first non-equal component straight out of that function
+    # (comparing the high nibble, then the low nibble, is the order of the bytes themselves)
+    # (added after seeded change C16-r5-1: the slice arm swapped the operands when the left one is longer and reversed
+    # the result after the loop, which an early `return` skips)
+    units.append(Unit(uid(), "cmp.at.tail.fortry", "slice", "pair",
+                      "    const fn pos(l: &[u8], r: &[u8]) -> Ordering { const_cmp_for!(slice; l, r, |a, b| { konst::try_equal!(cmp_u8(*a / 16, *b / 16)); cmp_u8(*a % 16, *b % 16) }) }\n"
+                      "    let v = pos(l, r); o(v)",
+                      "    fn pos(l: &[u8], r: &[u8]) -> Ordering { l.cmp(r) }\n    let v = pos(l, r); o(v)"))
     # assertc_eq! / assertc_ne! as a statement of a const fn that returns something else
     for what, via, tkey, mac, ora in ASSERT_FORMS:
         T = TYPES[tkey]
